@@ -419,3 +419,21 @@ TNORMS = ["AlgebraicProduct", "BoundedDifference", "DrasticProduct", "EinsteinPr
 SNORMS = ["AlgebraicSum", "BoundedSum", "DrasticSum", "EinsteinSum", "HamacherSum", "Maximum", "NilpotentMaximum",
           "NormalizedSum", "UnboundedSum"]
 HEDGES = ["any", "extremely", "not", "seldom", "somewhat", "very"]
+
+
+LOCATION_PARAMS = {"Arc": [0, 1], "Bell": [0], "Binary": [0], "Concave": [0, 1], "Cosine": [0], "Gaussian": [0],
+                   "GaussianProduct": [0, 2], "PiShape": [0, 1, 2, 3], "Ramp": [0, 1], "Rectangle": [0, 1],
+                   "SemiEllipse": [0, 1], "Sigmoid": [0], "SigmoidDifference": [0, 3], "SigmoidProduct": [0, 3],
+                   "Spike": [0], "SShape": [0, 1], "ZShape": [0, 1], "Trapezoid": [0, 1, 2, 3], "Triangle": [0, 1, 2]}
+
+
+def translate(spec: dict, c: float) -> dict:
+    """The same term moved by c along the x axis."""
+    p = list(spec["p"])
+    if spec["cls"] == "Discrete":
+        for i in range(0, len(p), 2):
+            p[i] = p[i] + c
+    else:
+        for i in LOCATION_PARAMS[spec["cls"]]:
+            p[i] = p[i] + c
+    return dict(spec, p=p)
